@@ -21,6 +21,7 @@ GROUPS2 = [
     ("mw", "gen/DetectMw_gen.v", ["theories/DetectGenProofsMw.v"]),
     ("email", "gen/DetectEmail_gen.v", ["theories/DetectGenProofsEmail.v"]),
     ("web", "gen/DetectWeb_gen.v", ["theories/DetectGenProofsWeb.v"]),
+    ("kbd", "gen/DetectKbd_gen.v", ["theories/DetectGenProofsKbd.v"]),
 ]
 LAST2 = ["theories/DetectGenInst2.v"]
 
